@@ -292,6 +292,11 @@ fn examine(cx: &Ctxm, obj: &Obj, tags: &Tags, order: u8) -> Option<(String, Stri
                     }
                 } else {
                     let want = RefDual::constant(ib).div(&rd);
+                    if !finite(&want) {
+                        // far extrapolation can underflow the curve value so that base / value (or its
+                        // derivatives) overflows: outside the floating-point domain, not judged
+                        continue;
+                    }
                     let r = match (&x, order) {
                         (Number::F64(f), 0) => {
                             if close_scaled(*f, want.val.v, 1e-12, want.val.v.abs()) {
